@@ -526,6 +526,7 @@ func main() {
 	// ---------------------------------------------------------------- scalar-field loop code (translated)
 	translateLoops(*repo, writeImp)
 	translateElements(*repo, writeImp)
+	translateMsmChunk(*repo, writeImp)
 	fmt.Println("extract: ok")
 }
 
